@@ -1,6 +1,7 @@
 package rules
 
 import (
+	"go/types"
 	"sort"
 	"fmt"
 	"go/token"
@@ -39,6 +40,7 @@ func runC17(c *Ctx) {
 		"C17.1 every catalog registration or deregistration issued while processing a peer's stream carries that peer's name: deregister requests take PeerName from the handler's peer parameter, register requests are built from a snapshot whose nodes, services and checks are all stamped with it",
 		"C17.2 the exporting side adds a service to the set offered to a peer only below a match of one of the entry's consumers with that peer",
 		"C17.3 services that are no longer exported are pruned: every previously imported service name missing from the new list is handed to the update handler with a nil export",
+		"C17.6 on the exporting side, every reconciliation of the subscription state with the exported list walks the state it keeps (watched services, connect services) on every path, so that what is no longer exported is cancelled / deleted — also when the new list is empty",
 		"C17.5 in every state-store function that is told which peer it works for, writes to the tables that exist only for the local cluster (coordinates, sessions, session links, KV, prepared queries) lie below the peer-name-empty edge: handling imported data never touches them",
 		"C17.4 a stored instance is kept only if the received snapshot holds it on the same node: the membership tests that guard a service deregistration are keyed by the node (or nested under a node lookup)",
 	}
@@ -182,6 +184,7 @@ func runC17(c *Ctx) {
 	}
 	r.Floor("C17.4", 2)
 	checkLocalOnlyTablesUnderLocalPeer(c)
+	checkExportReconcileAlwaysRuns(c)
 
 	// ---- C17.3
 	if hu := p.Func(peerstreamPkg, "(*Server).handleUpsertExportedServiceList"); hu != nil {
@@ -497,4 +500,69 @@ func checkLocalOnlyTablesUnderLocalPeer(c *Ctx) {
 		}
 	}
 	r.Floor("C17.5", 3)
+}
+
+// C17.6
+func checkExportReconcileAlwaysRuns(c *Ctx) {
+	p, r := c.P, c.R
+	n := 0
+	for _, f := range p.SrcFuncs("agent/grpc-external/services/peerstream") {
+		if f.Parent() != nil || !strings.HasPrefix(f.Name(), "sync") {
+			continue
+		}
+		// the walks over the maps the subscription state keeps, whose bodies delete from that map
+		var walks []ssa.Instruction
+		for _, b := range f.Blocks {
+			for _, in := range b.Instrs {
+				rg, ok := in.(*ssa.Range)
+				if !ok {
+					continue
+				}
+				a := core.AccessOf(rg.X)
+				if _, isMap := rg.X.Type().Underlying().(*types.Map); !isMap || len(a.Fields) == 0 {
+					continue
+				}
+				// deletes from the same map somewhere in the function
+				deletes := false
+				for _, bb := range f.Blocks {
+					for _, y := range bb.Instrs {
+						if call, ok := y.(*ssa.Call); ok {
+							if bi, ok := call.Call.Value.(*ssa.Builtin); ok && bi.Name() == "delete" && core.AccessOf(call.Call.Args[0]).LastField() == a.LastField() {
+								deletes = true
+							}
+						}
+					}
+				}
+				if deletes {
+					walks = append(walks, in)
+				}
+			}
+		}
+		if len(walks) == 0 {
+			continue
+		}
+		n++
+		name := core.FuncName(f)
+		mf := &core.MustFlow{F: f, Gen: func(in ssa.Instruction) []string {
+			for _, w := range walks {
+				if in == w {
+					return []string{"walked"}
+				}
+			}
+			return nil
+		}}
+		mf.Run()
+		bad := ""
+		for _, rt := range core.Returns(f) {
+			if s, ok := mf.At(rt); ok && !s["walked"] {
+				bad = p.Pos(rt.Pos())
+			}
+		}
+		if bad != "" {
+			r.Violate("C17.6", name, p.FuncPos(f), "the reconciliation can return (at "+bad+") without walking the state it keeps: when the peer loses its last exported service the watch on it is never cancelled, and every later change of that service is still sent to — and upserted by — a peer it is no longer exported to")
+		} else {
+			r.Hold("C17.6", name, p.FuncPos(f), "the kept state is walked (and pruned) on every path")
+		}
+	}
+	r.Floor("C17.6", 2)
 }
